@@ -153,3 +153,68 @@ func (n *Node) Stress(q *StressReq) *StressRsp {
 	n.MempoolSync()
 	return rsp
 }
+
+// HandoffReq: every sender has exactly one pooled tx (First), which a block produced from the pool mines while the
+// sender's next nonce (Second) is being submitted by concurrent clients - the moment at which the pool releases and
+// re-creates the sender's list.
+type HandoffReq struct {
+	First   [][]byte
+	Second  [][]byte
+	Seed    int64
+	DelayUS int
+}
+
+type HandoffRsp struct {
+	FirstRes  []string // put results of First (sequential)
+	SecondRes []string // put results of Second (concurrent)
+	Block     []byte
+	BlockErr  string
+}
+
+func (n *Node) Handoff(q *HandoffReq) *HandoffRsp {
+	rsp := &HandoffRsp{FirstRes: make([]string, len(q.First)), SecondRes: make([]string, len(q.Second))}
+	put := func(b []byte) string {
+		tx := DecTx(b)
+		res, err := n.req(message.MemPoolSvc, &message.MemPoolPut{Tx: tx})
+		if err != nil {
+			return "request: " + err.Error()
+		}
+		if e := res.(*message.MemPoolPutRsp).Err; e != nil {
+			return e.Error()
+		}
+		return ""
+	}
+	for i, b := range q.First {
+		rsp.FirstRes[i] = put(b)
+	}
+	n.MempoolSync()
+	var wg sync.WaitGroup
+	r := rand.New(rand.NewSource(q.Seed))
+	delays := make([]int, len(q.Second))
+	for i := range delays {
+		delays[i] = r.Intn(q.DelayUS + 1)
+	}
+	bdelay := r.Intn(q.DelayUS + 1)
+	for i, b := range q.Second {
+		wg.Add(1)
+		go func(i int, b []byte) {
+			defer wg.Done()
+			time.Sleep(time.Duration(delays[i]) * time.Microsecond)
+			rsp.SecondRes[i] = put(b)
+		}(i, b)
+	}
+	wg.Add(1)
+	go func() {
+		defer wg.Done()
+		time.Sleep(time.Duration(bdelay) * time.Microsecond)
+		pr := n.Produce(&ProduceReq{FromMempool: true, Connect: true, Confirms: -1, SignKey: 0})
+		if pr.Panic != "" || pr.GenErr != "" || pr.AddErr != "" {
+			rsp.BlockErr = pr.Panic + pr.GenErr + pr.AddErr
+		} else {
+			rsp.Block = pr.Block
+		}
+	}()
+	wg.Wait()
+	n.MempoolSync()
+	return rsp
+}
